@@ -64,6 +64,9 @@ CHECKS = {
  'C19': ('scc', 'TLC enumerates all digraphs (MC_Scc) -> fggs.utils.scc / nonterminal_graph -> TLC judges recorded results against SCCs-by-definition (Trace_Scc)',
          'Exhaustive over every digraph on <=3 (quick) / <=4 (thorough) vertices incl. self-loops, with all adjacency and vertex insertion orders, plus seeded digraphs to 8 vertices and seeded HRGs; each observed result is judged by TLC against the definitional components, partition and dependency order.',
          'Trusted: TLC, the 60-line definitional spec Scc.tla, the driver that builds the adjacency dict. Bounded by vertex count.', 'DESIGN.md#c19'),
+ 'C20': ('domains', 'TLC enumerates all domains / pairs / factor specs (MC_Domains, R3 bijection) and all binding calls of the FGG heap machine (MC_HRG) -> real FiniteDomain/RangeDomain/FiniteFactor/FGG -> TLC judges (Trace_Domains, Trace_Graphs)',
+         'Every finite domain over a 3-value universe in every order and every range domain 0..3, given as list/tuple/iterator/generator; every pair for equality; every factor over <=2 domains with the right and 7 kinds of wrong weight shapes given as nested list/Tensor/PatternedTensor; apply on every value tuple; shape via label/edge/nodes/node labels; every add_domain/add_factor pairing incl. re-binding to depth 4-5 of the heap machine.',
+         'Trusted: TLC, Domains.tla, Graphs.tla binding clause, the value encoding of the driver. Domain values are hashable python values of 3 kinds; sizes 0..3.', 'DESIGN.md#c20'),
 }
 
 PENDING = {}   # pid -> reason (filled below for every property without a check)
